@@ -696,8 +696,6 @@ class _R:
                 vt = self.string(value, ('',))       # the value is expanded on its own
             finally:
                 self.level -= 1
-            if vt != vt.strip():
-                raise Undefined('whitespace at the edges of a #LET value is not documented')
         else:
             vt = self._paren_expr(value)
         return self.single_text(name + '=' + vt)
@@ -731,8 +729,6 @@ class _R:
         if ']' in kt:
             _ill('bracket in key')
         vt = self.string(value, ('',)) if name.endswith('$') else self._paren_expr(value)
-        if vt != vt.strip():
-            raise Undefined('whitespace at the edges of a #LET value is not documented')
         return self.single_text('{}[{}]={}'.format(name, kt, vt))
 
     def _r_POKES(self, m, follow, flat):
